@@ -897,7 +897,18 @@ func (g *G) assert(c BoolV, label string, pos token.Pos) {
 		return
 	}
 	neg := vm.tb.BNot(c.S)
-	switch vm.check(neg) {
+	r1 := vm.check(neg)
+	if vm.solver2 != nil {
+		r2 := vm.solver2.Check(vm.pc, neg)
+		ex.CrossChecked++
+		if r1 != Unknown && r2 != Unknown && r1 != r2 {
+			ex.Inconclusive = append(ex.Inconclusive, fmt.Sprintf("SOLVER-DISAGREE on assertion %s: %s says %s, %s says %s", label, vm.solver.name, r1, vm.solver2.name, r2))
+		}
+		if r2 == Unknown {
+			ex.CrossUnknown++
+		}
+	}
+	switch r1 {
 	case Sat:
 		m := vm.modelAfterSat()
 		ex.recordViolation(vm, g, label, "assertion can fail: "+c.S.String(), vm.posStr(pos), m)
